@@ -1,8 +1,11 @@
 #!/bin/bash
-# verify_seed.sh <seed dir name> : in /tmp/vw (scratch worktree of /repo HEAD)
+# verify_seed.sh <seed dir name> : confirms a seeded change in /tmp/vw, a scratch worktree of /repo HEAD
+# (created here if missing; build output in /tmp/vw_target). When done with all seeds:
+#   git -C /repo worktree remove --force /tmp/vw; rm -rf /tmp/vw_target
 set -u
 n="$1"; S=/verif/seeded/$n; W=/tmp/vw
 export CARGO_TARGET_DIR=/tmp/vw_target CARGO_NET_OFFLINE=true
+[ -d $W ] || git -C /repo worktree add -q --detach $W HEAD
 cd $W || exit 2
 git checkout -q -- . ; git clean -fdq crates
 install_demo() {
